@@ -95,6 +95,77 @@ impl Property for C09 {
                 }
             }
         }
+        // exact constraint counts around multiples of 16 (batching / chunking thresholds)
+        if k % 25 == 9 && !g.pool.is_empty() {
+            let target = *rng.pick(&[15usize, 16, 17, 31, 32, 33, 48, 64]);
+            let mut next_id = inst.constraints.iter().map(|c| c.id).chain(inst.removed_constraints.iter().filter_map(|r| r.constraint.as_ref().map(|c| c.id))).max().map_or(0, |m| m + 1);
+            while inst.constraints.len() < target {
+                let a = *rng.pick(&g.pool);
+                let f = if rng.chance(1, 5) { f_const(small(rng)) } else { f_linear(linear(vec![(a, small(rng))], small(rng))) };
+                inst.constraints.push(constraint(next_id, if rng.bool() { EQ_ZERO } else { LE_ZERO }, Some(f)));
+                next_id += 1 + rng.below(3);
+            }
+            rng.shuffle(&mut inst.constraints);
+            mon.facet(&format!("exact-constraint-count:{target}"));
+        }
+        // history: the instance comes out of an earlier penalty-method pipeline (stale records of the
+        // first application are still attached to restored constraints)
+        if k % 6 == 4 {
+            match history_instance(rng, &inst) {
+                Some(i3) => {
+                    inst = i3;
+                    mon.facet("history:penalty->with_parameters->new-variables->restore->penalty-again");
+                }
+                None => mon.facet("history:not-applicable"),
+            }
+        }
+        self.check(inst, uniform, method, regime, rng, mon);
+    }
+}
+
+fn small(rng: &mut Rng) -> f64 {
+    let mut k = rng.range(-8, 8);
+    if k == 0 {
+        k = 3;
+    }
+    k as f64 / 2.0
+}
+
+/// penalty_method -> with_parameters -> new variables with larger ids -> restore some constraints
+fn history_instance(rng: &mut Rng, inst: &v1::Instance) -> Option<v1::Instance> {
+    if inst.constraints.is_empty() {
+        return None;
+    }
+    let first_uniform = rng.chance(1, 3);
+    let r = probe(|| -> Result<v1::Instance, String> {
+        let pi = if first_uniform { inst.clone().uniform_penalty_method() } else { inst.clone().penalty_method() }.map_err(|e| format!("{e:#}"))?;
+        let w = parameters(pi.parameters.iter().map(|p| (p.id, 1.0)));
+        let mut i2 = pi.with_parameters(w).map_err(|e| format!("{e:#}"))?;
+        // new variables whose ids take over / exceed the freed weight ids (as log_encode would add)
+        let base = i2.decision_variables.iter().map(|v| v.id).max().map_or(0, |m| m + 1);
+        for j in 0..1 + rng.below(4) {
+            i2.decision_variables.push(dvar(base + j, KIND_BINARY, Some((0.0, 1.0))));
+        }
+        // restore a random non-empty subset of the removed constraints
+        let ids: Vec<u64> = i2.removed_constraints.iter().filter_map(|r| r.constraint.as_ref().map(|c| c.id)).collect();
+        let mut restored = 0;
+        for id in ids {
+            if rng.bool() || restored == 0 {
+                i2.restore_constraint(id).map_err(|e| format!("{e:#}"))?;
+                restored += 1;
+            }
+        }
+        i2.parameters = None;
+        Ok(i2)
+    });
+    match r {
+        Ok(Ok(i)) => Some(i),
+        _ => None,
+    }
+}
+
+impl C09 {
+    fn check(&self, inst: v1::Instance, uniform: bool, method: &str, regime: Regime, rng: &mut Rng, mon: &mut Monitor) {
         let actives: Vec<&v1::Constraint> = inst.constraints.iter().collect();
         let nontrivial = actives.iter().any(|c| canon_opt_function(&c.function).degree() > 0);
         if nontrivial {
